@@ -159,6 +159,9 @@ pub fn run(cfg: &RunCfg) -> PartResult {
     list.push(crate::catalogue::banana(3, 3));
     list.push(crate::catalogue::banana(3, 1));
     for entry in list {
+        if entry.ne() > 5 {
+            continue; // Feynman parameters are not abstracted here: 6-edge graphs are outside the claim (DESIGN 13.6)
+        }
         let dims: Vec<usize> = if cfg.tier == Tier::Thorough { entry.dims.clone() } else { vec![entry.dims[(cfg.seed as usize) % entry.dims.len()]] };
         for d in dims {
             let l = entry.ograph().num_loops();
@@ -182,7 +185,7 @@ pub fn run(cfg: &RunCfg) -> PartResult {
             "Feynman parameters depend only on the first 2E-2 coordinates, lambda only on coordinate 2E-2, each Gaussian component only on its pair (dependency cones on every path + solver self-composition for the Feynman parameters)",
             "every coordinate can change the result: solver witness on some feasible path, replayed natively"
         ],
-        "outside": "graphs/D outside the catalogue; statistical independence itself is the mathematical consequence, not checked"
+        "outside": "graphs/D outside the catalogue, catalogue graphs with more than 5 edges; statistical independence itself is the mathematical consequence, not checked"
     });
     total.assumptions = vec!["z3 answers trusted".into(), "dependency = syntactic cone of the term DAG built by the real code (over-approximates semantic dependency)".into()];
     total
